@@ -1,5 +1,5 @@
 #!/usr/bin/env python3
-"""Runs every check on every stored seeded defect (/verif/seeded/<id>/patch.diff) and prints which checks report it; a seed whose own
+"""Runs every check on every stored seeded defect (``--update`` records the verdicts in each meta.json) (/verif/seeded/<id>/patch.diff) and prints which checks report it; a seed whose own
 property check stays silent is listed as MISSED.  Scratch copies live under a temporary directory and are removed."""
 import glob
 import json
@@ -48,6 +48,16 @@ def main():
             tag = "FIRES" if code == 1 else ("UNDECIDED(exit 2)" if code == 2 else "MISSED")
             if code != 1:
                 missed += 1
+            if "--update" in sys.argv and "*" not in out:
+                mp = os.path.join(VERIF, "seeded", rid, "meta.json")
+                try:
+                    meta = json.load(open(mp))
+                except Exception:
+                    meta = {}
+                meta["checks_run"] = PROPS
+                meta["detected_by"] = {p: sorted({str(r).split(" ")[0] for r in rules}) for p, (c, rules) in sorted(out.items()) if c == 1}
+                meta["analysis_errors"] = {p: [str(r)[:300] for r in rules] for p, (c, rules) in sorted(out.items()) if c == 2}
+                json.dump(meta, open(mp, "w"), indent=1)
             print(f"{rid}: own-property check {tag}: " + "; ".join(f"{p}={c}:{','.join(sorted({str(r).split(' ')[0] for r in rules}))[:60]}" for p, (c, rules) in sorted(out.items())))
     print(f"{len(ids)} seeded defects, {missed} not reported by their own property's check")
     return 0
